@@ -547,7 +547,7 @@ def run(check):
                 if len(check.notes) < 5:
                     check.notes.append("%s: Bad doc strings stay inside the comment in the implementation's output "
                                        "(repaired upstream?): %r" % (lang, [d for _, d in j["bad"]][:2]))
-        if "ambiguous" not in ma and ma != ra and first_diff is None and not tolerated:
+        if ma != ra and first_diff is None and not tolerated:
             first_diff = (c, ma, ra)
         # docs are reproduced: the sentinels of every doc string occur in the output
         missing = [s for _, d in c["docs"] for s in SENT.findall(d) if s not in j["seen"]]
